@@ -156,8 +156,22 @@ static void check_string(cs::Ctx& ctx, const std::string& text, bool linked) {
     if (numref::exact_integer(L, exact)) {
       s = Stored{true, exact.neg ? -(i128)exact.mag : (i128)exact.mag, 0, "numeric string"};
     } else {
-      // the parsed double is judged by C12; here the conversion from it must follow the rules
+      // the accuracy of the parsed double is judged by C12; here the conversion from it must follow
+      // the rules, and the value must at least be the number the text denotes (same rules whatever
+      // the length): zero stays zero, values inside [1e-300, 1e300] are finite and within 1e-6
       s = Stored{false, 0, v.as<double>(), "numeric string"};
+#if ARDUINOJSON_USE_DOUBLE
+      {
+        long double ref = strtold(text.c_str(), nullptr);
+        double got = v.as<double>();
+        if (numref::mantissa_is_zero(L)) {
+          if (got != 0) ctx.fail("string-as-floating", k + ": a zero literal converts to " + std::to_string(got));
+        } else if (fabsl(ref) >= 1e-300L && fabsl(ref) <= 1e300L) {
+          if (!std::isfinite(got) || fabsl(ref - (long double)got) > 1e-6L * fabsl(ref))
+            ctx.fail("string-as-floating", k + ": as<double>() = " + std::to_string(got) + " is not the value of the text");
+        }
+      }
+#endif
     }
   } else {
     // not a number of the documented grammar: as<T>() is 0 for words; spellings the scanner
